@@ -207,6 +207,15 @@ class Prog:
                     run.tempo[a[1]].beats = num(a[2])
                 elif op == 'raise':
                     raise ValueError('c05 body fails')
+                elif op == 'defer':
+                    def task(t=a[1], c=run.clock(a[2])):
+                        # a plain function scheduled with defer(func, delta, clock) = clock.sched(delta, func)
+                        run.moves.append((run.cname(c), run.env['now']()))
+                        run.events.append(f'R:{t}:0:{run.cname(c)}:{fr(c.beats)}:{fr(c.seconds - run.start)}')
+                        for b in run.case['rts'][t]:
+                            if b[0] == 'log':
+                                run.events.append(f'L:{t}:{fr(c.beats)}:{fr(c.seconds - run.start)}')
+                    run.clk.defer(task, num(a[3]), run.clock(a[2]))
                 elif op in ('pause', 'stop'):
                     r = run.R[a[1]]
                     if r is not None:
@@ -251,6 +260,20 @@ class Prog:
         r0 = self.create(0)
         r0.play(self.clock(self.case['root']), 0)
 
+    def replay(self, start):
+        """Play the SAME routine objects again: every existing routine is reset(), clocks and conditions are
+        new (NRT: after main.reset()); generators are whatever the objects still hold."""
+        self.start = start
+        self.events, self.moves, self.draw_values, self.draw_diag = [], [], [], []
+        for r in self.R:
+            if r is not None:
+                r.reset()
+        self.tempo = [self.clk.TempoClock(num(t)) for t in self.case['tempi']]
+        self.conds = [self.stm.Condition() for _ in self.conds]
+
+    def play_root_again(self):
+        self.R[0].play(self.clock(self.case['root']), 0)
+
 
 def boot_nrt():
     if _env:
@@ -266,13 +289,15 @@ def boot_nrt():
     return _env
 
 
-def nrt_case(case):
-    env = boot_nrt()
+def nrt_play(env, p, case, first):
     main = env['main']
-    main.reset()
-    main.current_tt = main.main_tt
-    p = Prog(env, case, 0)
-    p.start_root()
+    if first:
+        p.start_root()
+    else:
+        main.reset()
+        main.current_tt = main.main_tt
+        p.replay(0)
+        p.play_root_again()
     err = None
     try:
         score = main.process(num(case.get('tail', '0')))
@@ -288,8 +313,21 @@ def nrt_case(case):
                 bundles.append([fr(b[0] - lat_of(b[1][2])), b[1][2]])
     times = [fr(t) for _, t in p.moves]
     raw = hashlib.sha1(bytes(score.raw)).hexdigest() if score is not None else None
-    return {'raw_sha1': raw, 'draw_values': p.draw_values, 'draw_diag': p.draw_diag, 'trace': ' '.join(p.events) + f' | end={fr(end)} pend={pend}', 'bundles': bundles,
+    return {'raw_sha1': raw, 'draw_values': p.draw_values, 'draw_diag': p.draw_diag,
+            'trace': ' '.join(p.events) + f' | end={fr(end)} pend={pend}', 'bundles': bundles,
             'task_times': times, 'elapsed': fr(main.elapsed_time()), 'error': err}
+
+
+def nrt_case(case):
+    env = boot_nrt()
+    main = env['main']
+    main.reset()
+    main.current_tt = main.main_tt
+    p = Prog(env, case, 0)
+    out = nrt_play(env, p, case, True)
+    if case.get('rerun'):
+        out['rerun'] = nrt_play(env, p, case, False)
+    return out
 
 
 def run_nrt(payload):
@@ -329,11 +367,23 @@ def rt_case(case):
     if env.get('broken'):
         return {'skipped': True, 'trace': ' | end=0 pend=0', 'moves': [], 'bundles': [], 'start': '0',
                 'error': None, 'phys': []}
+    out = rt_play(env, case, None)
+    if case.get('rerun') and not env.get('broken') and out.get('_prog') is not None:
+        out['rerun'] = rt_play(env, case, out['_prog'])
+        out['rerun'].pop('_prog', None)
+    out.pop('_prog', None)
+    return out
+
+
+def rt_play(env, case, prog):
     vt, main, clk = env['vt'], env['main'], env['clk']
     start = (int(vt.now) // 64 + 1) * 64.0
     vt.advance_to(start)
     env['sent'].clear()
-    p = Prog(env, case, start)
+    first = prog is None
+    p = Prog(env, case, start) if first else prog
+    if not first:
+        p.replay(start)              # same routine objects, reset; new clocks
     vt.settle()                      # tempo clock threads reach their first wait
     lt = case.get('late') or {'mode': 'zero', 'vals': ['0']}
     vals = [float(Fraction(v)) for v in lt['vals']] or [0.0]
@@ -356,7 +406,10 @@ def rt_case(case):
     signal.signal(signal.SIGALRM, _alarm)
     signal.setitimer(signal.ITIMER_REAL, RT_CASE_TIMEOUT)
     try:
-        p.start_root()
+        if first:
+            p.start_root()
+        else:
+            p.play_root_again()
         # own drain loop (vt.drain does not progress with late > 0)
         idle, limit, guard = False, start + 8192.0, 0
         while True:
@@ -411,7 +464,7 @@ def rt_case(case):
         err = (err or '') + f' dead threads: {dead}'
     return {'trace': ' '.join(p.events) + f' | end={fr(end - start)} pend={pend}', 'moves': moves,
             'bundles': bundles, 'start': fr(start), 'error': err, 'draw_values': p.draw_values,
-            'draw_diag': p.draw_diag, 'phys': [fr(now - start) for _, now in p.moves]}
+            'draw_diag': p.draw_diag, 'phys': [fr(now - start) for _, now in p.moves], '_prog': p}
 
 
 def run_rt(payload):
